@@ -57,7 +57,7 @@ def load_known():
         return json.load(f)
 
 
-class _Timeout(Exception):
+class _Timeout(BaseException):      # (not an Exception: a check's own `except Exception` must not swallow it)
     pass
 
 
@@ -101,6 +101,27 @@ def worker_main(argv):
         with open(curfile, "w") as f:
             json.dump(idx, f)
         res = safe_run_case(mod, case)
+        if res.get("violations"):
+            # a failure is only trusted when the same case fails the same way on re-execution (an exception that the
+            # environment injects once -- memory pressure, an interrupted system call -- is not a property violation);
+            # what is not reproduced is counted and listed in the evidence, never dropped silently
+            res2 = safe_run_case(mod, case)
+
+            def _k(v):
+                return json.dumps(v.get("sig"), sort_keys=True, default=str)
+            again = {_k(v) for v in res2.get("violations", [])}
+            confirmed = [v for v in res["violations"] if _k(v) in again]
+            unconfirmed = [v for v in res["violations"] if _k(v) not in again]
+            if unconfirmed:
+                res = dict(res, violations=confirmed)
+                if not confirmed:
+                    res["outcome"] = res2.get("outcome", "ok") if not res2.get("violations") else res.get("outcome")
+                cnt = dict(res.get("counters") or {})
+                cnt["violations_not_reproduced_on_re-execution"] = cnt.get("violations_not_reproduced_on_re-execution", 0) + len(unconfirmed)
+                res["counters"] = cnt
+                agg["collect"].append({"not_reproduced": [{"sig": v.get("sig"), "msg": str(v.get("msg"))[:600]} for v in unconfirmed[:3]],
+                                       "case_index": idx})
+                sys.stderr.write(f"NOT-REPRODUCED (case {idx}): {[v.get('sig') for v in unconfirmed[:3]]}\n")
         merge_result(agg, idx, case, res)
     # determinism self-check: re-run the first case of the shard and compare
     if shard < len(cases) and getattr(mod, "DETERMINISM_CHECK", True):
